@@ -554,6 +554,17 @@ def _process_internal_events_without_default_matchers(
                     started_event,
                 )
                 handled_event_loops.add("all_loops")
+            elif (
+                event.arguments.get("activated", None)
+                and is_activated_child_flow
+                and state.flow_states[
+                    event.arguments["source_flow_instance_uid"]
+                ].activated
+                == 0
+            ):
+                # The restart of an activated flow that was deactivated in the meantime
+                # (its last activator ended while the restart was still pending)
+                log.info("Flow restart dropped, flow was deactivated: %s", flow_id)
             else:
                 # Start a new instance of an activated flow
 
